@@ -228,3 +228,10 @@ def guards(acc, tier):
     if len(acc.outcomes) < 500:
         msgs.append('fewer than 500 distinct outcomes')
     return msgs
+
+
+def unit_test(case):
+    o, seq = case['op'], list(case['seq'])
+    if o[0] == 'sort' or case['mode'] == 'raw2':
+        return None
+    return harness.unit_test_api([o], seq, listdef(o, seq), mux=case['mode'] != 'plain')
